@@ -221,6 +221,31 @@ def main():
             got = behaviour(v)
             if got != [want_a, want_a, want_a, "obj"]:
                 fail("override_with_a_renamed_parameter_replaces_the_parents_method", how=how, method=variant_fn.__name__, got=got)
+    def fa_ret_str(x: A) -> "str":
+        return "A-ret"
+
+    def fa_ret_any(x: A) -> object:
+        return "A-ret"
+
+    for variant_fn in (fa_ret_str,):  # (a DIFFERENT return type is a different signature by design: not an override)
+        for how in ("variant", "copy+register"):
+            pr_ = Ovld(name="ret")
+
+            def fa_plain(x: A) -> str:
+                return "A"
+
+            def fo_plain(x: object):
+                return "obj"
+
+            pr_.register(fa_plain)
+            pr_.register(fo_plain)
+            v = pr_.variant(variant_fn) if how == "variant" else pr_.copy()
+            if how != "variant":
+                v.register(variant_fn)
+            n += 1
+            got = behaviour(v)
+            if got != ["A-ret", "A-ret", "A-ret", "obj"]:
+                fail("override_replaces_whatever_the_spelling_of_the_return_annotation", how=how, method=variant_fn.__name__, got=got)
     # ... and when the override is the only method left for that signature, the child is callable by the override's own
     # parameter name (the replaced parent method no longer shapes the child's entry point)
     for how in ("variant", "copy+register", "grandchild"):
